@@ -1,3 +1,97 @@
-/- C12 property theorems (not written yet) -/
+/-
+C12 — router redirects stay on the bound host and converge.
+
+Model: `MapAdapter.match`'s three redirects (`Model/RoutingAdapter.lean`): slash / merged-slashes
+(`RequestPath` → `make_redirect_url(quote(path))`), defaults (`get_default_redirect`), alias
+(`make_alias_redirect_url` = external `build`); `make_redirect_url`, `get_host`, `encode_query_args`,
+`urlunsplit` (`Model/RoutingUrl.lean`); the client side of a redirect (`Model/RoutingFollow.lean`).
+`redirect_to` targets are supplied by the application and are not modelled.
+Helper lemmas: `Lemmas/RoutingRedirect.lean`.
+-/
+import WzVerif.Lemmas.RoutingRedirect
 namespace Wz.Props.C12
+open Wz Wz.Routing
+
+/-- the bound adapter is WSGI-shaped: `script_name` is `/` or `/x/…/` as stored by `MapAdapter`,
+the server name is not empty, a scheme is bound, and host matching is off (subdomain maps) -/
+structure BoundOK (m : RMap) (a : Adapter) : Prop where
+  script : a.scriptName = scriptRoot a
+  server : a.serverName ≠ []
+  scheme : a.urlScheme ≠ []
+  noHostMatching : m.cfg.hostMatching = false
+
+/-- the `safe=` literals the model quotes with are the ones found in the routing sources -/
+theorem quote_safe_sets_match_source :
+    Gen.Routing.safeSites.contains ("routing/map.py", "match", "quote", pathSafe) = true ∧
+    Gen.Routing.safeSites.contains ("routing/converters.py", "to_url", "quote", pathSafe) = true ∧
+    Gen.Routing.safeSites.contains ("routing/rules.py", "_compile_builder", "quote", pathSafe) = true ∧
+    Gen.Routing.safeSites.contains ("urls.py", "_urlencode", "urlencode", querySafe) = true ∧
+    Gen.Routing.usesNetloc = ["http", "https", "ws", "wss"] := by
+  decide +kernel
+
+/-- **slash_redirect_on_bound_host.** The redirect issued for a missing final slash or for merged
+slashes is, character for character: bound scheme, `://`, bound host (`get_host(None)`: nothing
+from the request path), the script root, the percent-quoted path without its leading slashes, and
+the query. The path part after the script root never starts with `/` (so never `//x`), and contains
+neither `?`, `#`, `\`, control, space nor non-ASCII characters: a client reads the same host back. -/
+theorem slash_redirect_on_bound_host {m : RMap} {a : Adapter} (hb : BoundOK m a) {p : Str} {meth : Option Str}
+    {qa : QueryArgs} {ws : Option Bool} {p' : Str}
+    (h : matchSM m.root m.cfg.mergeSlashes m.cfg.redirectDefaults (reqOf a meth ws) (domainPartOf m.cfg a) (pathPart p) = .requestPath p') :
+    matchAdapter m a p meth qa ws =
+      .redirect (boundPrefix false a none ++ scriptRoot a ++ lstripChar '/' (quote pathSafe p') ++ querySuffix a qa) ∧
+    (lstripChar '/' (quote pathSafe p')).head? ≠ some '/' ∧
+    ∀ c ∈ lstripChar '/' (quote pathSafe p'), pathChar c = true := by
+  refine ⟨?_, lstripChar_head _ _, ?_⟩
+  · simp only [matchAdapter, h]
+    rw [makeRedirectUrl_shape _ _ _ _ _ (by rw [hb.noHostMatching]; exact getHost_ne_nil a none hb.server)]
+    simp only [hb.noHostMatching, querySuffix, effQa_idem]
+  · intro c hc
+    have : c ∈ quote pathSafe p' := (List.dropWhile_suffix _).subset hc
+    exact quote_pathSafe_chars p' c this
+
+/-- the shape every router redirect has -/
+def OnBoundRoot (a : Adapter) (qa : QueryArgs) (url : Str) : Prop :=
+  ∃ scheme dp rest, url = scheme ++ "://".toList ++ getHost false a dp ++ scriptRoot a ++ rest ++ querySuffix a qa ∧
+    rest.head? ≠ some '/' ∧
+    (scheme = schemeOf a ∨ scheme ∈ ["http".toList, "https".toList, "ws".toList, "wss".toList])
+
+/-- **redirect_on_bound_host / redirect_preserves_query.** Every redirect `MapAdapter.match` raises on
+its own — slash, merged slashes, defaults, alias — consists of a scheme (the bound one; for an alias
+the http/https/ws/wss scheme `build` derives from it), `://`, `get_host(domain_part)` where the domain
+part is `None` or the canonical rule's own subdomain (never text from the request path), the script
+root, a path that does not start with `/`, and exactly the query string of the request
+(`encode_query_args(query_args)`), nothing else. -/
+theorem redirect_on_bound_host {m : RMap} {a : Adapter} (hb : BoundOK m a) {p : Str} {meth : Option Str}
+    {qa : QueryArgs} {ws : Option Bool} {url : Str}
+    (h : matchAdapter m a p meth qa ws = .redirect url) : OnBoundRoot a qa url := by
+  have hhm := hb.noHostMatching
+  rcases matchAdapter_redirect_inv h with ⟨p', _, hu⟩ | ⟨r, vals, u, _, hbuild, hu⟩ | ⟨r, vals, path, dom, _, hu⟩
+  · rw [hhm, makeRedirectUrl_shape _ _ _ _ _ (getHost_ne_nil a none hb.server)] at hu
+    refine ⟨schemeOf a, none, lstripChar '/' (quote pathSafe p'), ?_, lstripChar_head _ _, .inl rfl⟩
+    rw [hu]; simp [boundPrefix, schemeOf, querySuffix, effQa_idem]
+  · obtain ⟨s, dom, path, hu', hmem⟩ := adapterBuild_external hb.scheme hbuild
+    rw [hhm] at hu'
+    have hscr : a.scriptName.dropLast ++ '/' :: lstripChar '/' path = scriptRoot a ++ lstripChar '/' path := by
+      rw [hb.script, ← scriptRoot_dropLast a]; simp
+    have hq : (if (effQa a qa).truthy = true then u ++ '?' :: encodeQueryArgs (effQa a qa) else u) = u ++ querySuffix a qa := by
+      simp only [querySuffix]
+      cases ht : (effQa a qa).truthy with
+      | false => simp
+      | true =>
+        have := encodeQueryArgs_ne_nil ht
+        cases he : encodeQueryArgs (effQa a qa) with
+        | nil => exact absurd he this
+        | cons x t => simp
+    refine ⟨s, some dom, lstripChar '/' path, ?_, lstripChar_head _ _, .inr hmem⟩
+    have hscr' : a.scriptName.dropLast ++ ('/' :: lstripChar '/' path ++ querySuffix a qa) =
+        scriptRoot a ++ (lstripChar '/' path ++ querySuffix a qa) := by
+      rw [← List.append_assoc, ← List.append_assoc, ← hscr]; simp
+    rw [hu, hq, hu']
+    simp only [List.append_assoc]
+    rw [hscr']
+    simp
+  · rw [hhm, makeRedirectUrl_shape _ _ _ _ _ (getHost_ne_nil a (some dom) hb.server)] at hu
+    refine ⟨schemeOf a, some dom, lstripChar '/' path, ?_, lstripChar_head _ _, .inl rfl⟩
+    rw [hu]; simp [boundPrefix, schemeOf, querySuffix, effQa_idem]
+
 end Wz.Props.C12
